@@ -111,6 +111,14 @@ def Op.isQuery : Op → Bool
   | .query _ => true
   | _ => false
 
+/-- the history with every device argument replaced by one fixed device -/
+def Op.forgetDev : Op → Op
+  | .sample _ => .sample 0
+  | o => o
+
+/-- what a call returns apart from the device: which set, and whether it was drawn for this call -/
+def Out.core (o : Out) : Nat × Bool := (o.id, o.drawn)
+
 /-- the history with all read-only questions removed -/
 def eraseQueries (ops : List Op) : List Op := ops.filter (fun o => !o.isQuery)
 
